@@ -6,6 +6,8 @@ pub mod c04;
 pub mod c05;
 pub mod c09;
 pub mod c10;
+pub mod c08;
+pub mod c11;
 pub mod c12;
 
 pub type ReplayResult = Result<(bool, String), String>;
@@ -16,6 +18,8 @@ pub fn run(prop: &str, ctx: &Ctx) -> Option<Report> {
         "C05" => Some(c05::run(ctx)),
         "C09" => Some(c09::run(ctx)),
         "C10" => Some(c10::run(ctx)),
+        "C08" => Some(c08::run(ctx)),
+        "C11" => Some(c11::run(ctx)),
         "C12" => Some(c12::run(ctx)),
         _ => None,
     }
@@ -27,6 +31,8 @@ pub fn replay(prop: &str, ctx: &Ctx, case: &Value) -> ReplayResult {
         "C05" => c05::replay(ctx, case),
         "C09" => c09::replay(ctx, case),
         "C10" => c10::replay(ctx, case),
+        "C08" => c08::replay(ctx, case),
+        "C11" => c11::replay(ctx, case),
         "C12" => c12::replay(ctx, case),
         _ => Err(format!("no replay for property {}", prop)),
     }
